@@ -3,6 +3,7 @@ package c06
 import (
 	"math/big"
 	"math/rand"
+	"sync"
 
 	"github.com/kardiachain/go-kardia/kvm"
 	"github.com/kardiachain/go-kardia/lib/common"
@@ -133,15 +134,23 @@ func factoryCode() []byte {
 }
 
 // childAddr is the CREATE2 address of the factory's child for a salt.
-func childAddr(salt uint64) common.Address { return childAddrs[salt] }
+func childAddr(salt uint64) common.Address {
+	childAddrsOnce.Do(func() {
+		h := crypto.Keccak256(childInit())
+		for s := range childAddrs {
+			childAddrs[s] = crypto.CreateAddress2(factoryAddr, common.BigToHash(new(big.Int).SetUint64(uint64(s))), h)
+		}
+	})
+	return childAddrs[salt]
+}
 
-var childAddrs = func() (out [nSalts]common.Address) {
-	h := crypto.Keccak256(childInit())
-	for s := range out {
-		out[s] = crypto.CreateAddress2(factoryAddr, common.BigToHash(new(big.Int).SetUint64(uint64(s))), h)
-	}
-	return
-}()
+// computed at first use, not at package initialisation: the binary is shared by all properties, and under the race
+// detector (checkptr) the repository's sha3 dies on inputs of 136-167 bytes - which must not take the race children of
+// other properties down at start-up
+var (
+	childAddrsOnce sync.Once
+	childAddrs     [nSalts]common.Address
+)
 
 func word(v uint64) []byte { return common.BigToHash(new(big.Int).SetUint64(v)).Bytes() }
 
